@@ -55,6 +55,25 @@ the array at its old content, which was then compared):
   * ModeEv: an *empty* selection (`Empty`: `X[sel]` with sel false, `np.arange(0)`, also module-level) selects nothing as a selector, has size 0
     and is unknown as a value - so regimes kept as a dict of index vectors (`iel[rat >= c]`, `regimes.get("under", _NOROWS)`) are decided like masks.
 
+Fourth pass (neutral patch N24: a FALSE VIOLATION - `Gp = np.array(F)`, a copy, had been read as another name of F, so the stores into Gp landed in F):
+
+  * array identity is answered per construct, never assumed: a call that makes an array from ONE array is a *copy* (np.array, np.copy, .copy(), .astype()),
+    the operand itself or a *view* of it (np.asarray / np.asanyarray without dtype, np.atleast_1d, .view(), .squeeze(), X[:], X[...], X[:, None]) or *either,
+    depending on dtype / memory layout* (np.asarray(x, dtype=...), np.array(x, copy=False), np.ascontiguousarray, np.ravel / .ravel(), .astype(copy=False)).
+    In the last case the result gets its own identity and is *linked* with the operand (`Box.link`): a write into one leaves the other unknown - for good,
+    the links are not dissolved (history arrays: the operand is given up at once);
+  * masked stores spelled as library calls (np.place / np.putmask / np.put / x.put / np.copyto(where=) / ufunc(out=, where=), positional or keyword) are
+    placed on the functions' signatures; a form that cannot be placed gives up its destination (also when the destination is a keyword, also the
+    positional out operand of a ufunc).  How these functions pair VALUES with selected entries is a question of operand spaces: C01-R7 types it
+    (c01_masks.masked_store_call) and reports a call it cannot type as ANALYSIS-ERROR; a store through a slice of the mode axis and np.split of a
+    per-mode array are unknown for the generic mode (its position relative to the cut is not known);
+  * np.split / np.array_split / np.vsplit / np.hsplit with a list of cut positions are the slices they stand for (np.hsplit needs the number of axes:
+    `ndims` declared by the rule, history arrays, slicing); np.take / .take / np.compress / .compress / np.extract are subscripts; np.copyto(x, v) and
+    ufunc(out=view) are stores also on history arrays;
+  * the library under the importing module's names: `import numpy as xp`, `import numpy`, `from numpy import exp as _exp`, `import scipy.linalg`,
+    `from itertools import accumulate as acc` (module or function level) are canonicalised before hooks, models and inlining see a call (`import_aliases`);
+  * loop index sources: integer np.arange, np.ndindex, itertools.islice, itertools.count under zip / islice, chain, repeat.
+
 `ModeEv` evaluates mask-partitioned per-mode code (`get_su_coef`) for ONE generic mode of a given regime: every per-mode array is the scalar
 of that mode, a mask or index vector is the truth value "this mode is selected" (0 / 1), `X[sel]` is X or an empty selection, `X[sel] = v`
 stores or is a no-op, `np.any(sel)` is the truth value itself.  Arrays are boxes with identity, so a store through an alias (`for dest, row in
@@ -285,6 +304,16 @@ class IterV:
         return f"IterV({len(self.items) - self.pos} left)"
 
 
+class _Count:
+    """itertools.count(start, step): an unbounded arithmetic sequence of integer constants"""
+
+    def __init__(self, start, step):
+        self.start, self.step = start, step
+
+    def take(self, n):
+        return [F.const(self.start + k * self.step) for k in range(n)]
+
+
 class Empty(Unknown):
     """ModeEv: a selection that does not contain the generic mode (`X[sel]` with sel false, `np.arange(0)`, an index vector cut by a mask the mode fails).
     As a value it is unknown (there is no element to speak of); as a selector it selects nothing; its size is 0"""
@@ -312,16 +341,19 @@ class Box:
             self.arr = True
 
     def set(self, v):
-        """a write into the array: every box that may share its memory is not known afterwards (it changed if it is the same array, it did not if it
-        is a copy - never a guess)"""
+        """a write into the array: every box that may share its memory (directly or through a chain of such boxes) is not known afterwards - it changed
+        if it is the same array, it did not if it is a copy; never a guess.  The links stay: a later write into one of the others puts THIS box in doubt"""
         self.v = v
         if self.links:
-            others, self.links = self.links, None
-            for o in others:
-                if o.links:
-                    o.links = [x for x in o.links if x is not self] or None
-                o.set(Unknown("may share its memory with an array that was written afterwards (the call that made it returns its operand or a copy, "
-                              "depending on dtype / memory layout)"))
+            seen, work = {id(self)}, list(self.links)
+            while work:
+                o = work.pop()
+                if id(o) in seen:
+                    continue
+                seen.add(id(o))
+                o.v = Unknown("may share its memory with an array that was written afterwards (the call that made it returns its operand or a copy, "
+                              "depending on dtype / memory layout)")
+                work.extend(o.links or [])
 
     def link(self, other):
         if other is self:
@@ -986,11 +1018,55 @@ class Ev01(AutoEvaluator):
                 if all(c is not None and c.denominator == 1 for c in cs):
                     return [F.const(k) for k in range(*[int(c) for c in cs])]
                 return None
-            if d == "zip" and node.args and not node.keywords:
-                its = [self.iter_items(a) for a in node.args]
+            d = self.canon_name(d)
+            if d == "zip" and node.args and all(k.arg == "strict" for k in node.keywords):
+                its = [self.count_items(a) or self.iter_items(a) for a in node.args]
                 if any(i is None for i in its):
                     return None
-                return [tuple(x) for x in zip(*its)]
+                fin = [i for i in its if not isinstance(i, _Count)]
+                if not fin:
+                    return None          # only unbounded counters
+                n_ = min(len(i) for i in fin)
+                return [tuple(x) for x in zip(*[(i.take(n_) if isinstance(i, _Count) else i) for i in its])]
+            if d in ("np.arange", "numpy.arange") and 1 <= len(node.args) <= 3 and all(k.arg == "dtype" for k in node.keywords):
+                cs = [const_of(self.ev(a)) for a in node.args]
+                if all(c is not None and c.denominator == 1 for c in cs):
+                    return [F.const(k) for k in range(*[int(c) for c in cs])]          # integer np.arange: the same positions as range
+                return None
+            if d in ("np.ndindex", "numpy.ndindex") and node.args and not node.keywords:
+                shp = node.args[0].elts if len(node.args) == 1 and isinstance(node.args[0], (ast.Tuple, ast.List)) else node.args
+                cs = [const_of(self.ev(a)) for a in shp]
+                if cs and all(c is not None and c.denominator == 1 and c >= 0 for c in cs):
+                    import itertools as _it
+                    out = [tuple(F.const(k) for k in ix) for ix in _it.product(*[range(int(c)) for c in cs])]
+                    return out if len(out) <= self.LIMIT else None
+                return None
+            if d in ("islice", "itertools.islice") and 2 <= len(node.args) <= 4 and not node.keywords:
+                bs = []
+                for a in node.args[1:]:
+                    if isinstance(a, ast.Constant) and a.value is None:
+                        bs.append(None)
+                        continue
+                    c = const_of(self.ev(a))
+                    if c is None or c.denominator != 1 or c < 0:
+                        return None
+                    bs.append(int(c))
+                sl = slice(*bs) if len(bs) > 1 else slice(bs[0])
+                cnt = self.count_items(node.args[0])
+                if cnt is not None:
+                    if sl.stop is None:
+                        return None
+                    return cnt.take(sl.stop)[sl]
+                it = self.iter_items(node.args[0])
+                return None if it is None else list(it)[sl]
+            if d in ("chain", "itertools.chain") and not node.keywords:
+                its = [self.iter_items(a) for a in node.args]
+                return None if any(i is None for i in its) else [x for i in its for x in i]
+            if d in ("repeat", "itertools.repeat") and len(node.args) == 2 and not node.keywords:
+                c = const_of(self.ev(node.args[1]))
+                if c is not None and c.denominator == 1 and 0 <= c <= self.LIMIT:
+                    return [self.evr(node.args[0])] * int(c)
+                return None
             if d == "enumerate" and 1 <= len(node.args) <= 2:
                 it = self.iter_items(node.args[0])
                 st = node.args[1] if len(node.args) == 2 else next((k.value for k in node.keywords if k.arg == "start"), None)
@@ -1032,6 +1108,20 @@ class Ev01(AutoEvaluator):
         if s is not None:
             return [mk_str(ch) for ch in s]
         return None
+
+    def count_items(self, node):
+        """itertools.count(start=0, step=1) with integer constants: an unbounded counter (bounded by zip / islice), else None"""
+        if not (isinstance(node, ast.Call) and self.canon_name(dotted(node.func)) in ("count", "itertools.count") and len(node.args) <= 2):
+            return None
+        got = dict(zip(("start", "step"), node.args))
+        for k in node.keywords:
+            if k.arg not in ("start", "step") or k.arg in got:
+                return None
+            got[k.arg] = k.value
+        cs = {k: const_of(self.ev(v)) for k, v in got.items()}
+        if any(c is None or c.denominator != 1 for c in cs.values()):
+            return None
+        return _Count(int(cs.get("start", 0)), int(cs.get("step", 1)))
 
     def bind(self, target, item):
         if isinstance(target, ast.Name):
@@ -2058,6 +2148,8 @@ class Ev01(AutoEvaluator):
             src = args[0] if d in ARRAY_FROM else node.func.value
             if kind == "alias":
                 r = self.ref_of(src)
+                if isinstance(r, Box):
+                    r.arr = True          # np.asarray(x) / x.view() is an ndarray (0-d for a number): `y += 1` on it is in place
                 return r if r is not None else self.evr(src)
             if kind == "copy":
                 return self.copied(self.evr(src))
@@ -2809,6 +2901,10 @@ class ModeEv(Ev01):
             s = self.selector(target.slice)
         except Unsupported as e:
             s, v = None, Unknown(str(e))
+        sl_ = target.slice
+        if isinstance(sl_, ast.Slice) and not is_full_slice(sl_):
+            # a store through a part of the mode axis given by positions (`X[:k] = v`, `X[1:] = v`): whether the generic mode is inside is not known
+            v = Unknown(f"store `{ast.unparse(target)[:60]}` through a slice of the mode axis: whether the generic mode is inside is not known")
         tv = target.value
         if isinstance(tv, ast.Name):
             box = self.env.get(tv.id)
@@ -2867,6 +2963,14 @@ class ModeEv(Ev01):
 
     def one_d(self, node):
         return True          # the per-mode arrays of mask-partitioned code (one entry per mode)
+
+    def split_call(self, d, node):
+        """a per-mode array cut at positions: on which side of a cut the generic mode lies is not known, and the pieces are views through which the
+        array may be written"""
+        why = f"`{ast.unparse(node)[:60]}`: the position of the generic mode relative to the cut is not known"
+        if node.args:
+            self.poison_expr(node.args[0], why, node)
+        return Unknown(why)
 
     def whole_view(self, node, base):
         if isinstance(base, Box):
